@@ -189,6 +189,27 @@ def defaultRealm : Str := "Restricted".toList
 def wwwValue (realm quoted : Str) : Str :=
   "basic realm=".toList ++ (if realm = [] ∨ realm = defaultRealm then defaultRealm else quoted)
 
+/-! ### the request BasicAuth looks at (round 6)
+
+The whole request head is an input: method and every header line (name in net/http's canonical
+form, value).  BasicAuth consults nothing but the values of `Authorization`; the method, CORS-
+preflight-looking headers (`Access-Control-Request-Method`, `Origin`), `Upgrade`, `X-Requested-With`,
+`X-Forwarded-*`, … open no way past the validator. -/
+
+def authorizationLit : Str := "Authorization".toList
+
+structure HReq where
+  method : Str
+  headers : List (Str × Str)       -- in the order net/http keeps the values of one name
+deriving DecidableEq, Repr, Inhabited
+
+/-- `req.Header.Values(name)` for a canonical `name` -/
+def HReq.values (r : HReq) (name : Str) : List Str := (r.headers.filter fun h => h.1 = name).map (·.2)
+
+/-- BasicAuth on a whole request -/
+def basicAuthReq (skip : Bool) (V : Str → Str → Outcome) (dec : Str → Option Str) (r : HReq) : Option BObs :=
+  basicAuthMW skip V dec (r.values authorizationLit)
+
 /-! ## KeyAuth: configuration -/
 
 inductive Kind where
@@ -200,8 +221,6 @@ structure Src where
   name : Str
   pre : Str            -- cut-prefix (header sources only; "" otherwise)
 deriving DecidableEq, Repr, Inhabited
-
-def authorizationLit : Str := "Authorization".toList
 
 /-- one element of `strings.Split(lookups, ",")`:
     `none` = createExtractors returns an error (the constructor panics);
@@ -528,7 +547,7 @@ def pPair : P (Str × Str) := do
   pure (a, b)
 
 inductive Op where
-  | basic (ctor : Nat) (skip : Bool) (realm quoted : Str) (hdrs : List Str) (dflt : Outcome)
+  | basic (ctor : Nat) (skip : Bool) (realm quoted : Str) (req : HReq) (dflt : Outcome)
           (tbl : List ((Str × Str) × Outcome))
   | key (ctor : Nat) (skip : Bool) (lookups scheme : Str) (eh : EH) (cont : Bool)
         (data : List (List (Str × Str))) (dflt : Outcome) (tbl : List (Str × Outcome))
@@ -540,10 +559,11 @@ def pBasicBody : P Op := do
   let skip ← bool
   let realm ← str
   let quoted ← str
-  let hdrs ← list str
+  let method ← str
+  let headers ← list pPair
   let dflt ← pOutcome
   let tbl ← list (do let k ← pPair; let o ← pOutcome; pure (k, o))
-  pure (.basic ctor skip realm quoted hdrs dflt tbl)
+  pure (.basic ctor skip realm quoted ⟨method, headers⟩ dflt tbl)
 
 def pKeyBody : P Op := do
   let ctor ← nat
@@ -590,9 +610,9 @@ def layersOf : List Op → Option (List ALayer)
     | none => none
     | some ls =>
       match op with
-      | .basic ctor skip realm quoted hdrs dflt tbl =>
+      | .basic ctor skip realm quoted req dflt tbl =>
         if ctor ≥ 2 then none
-        else some (.basic skip (if ctor = 1 then [] else realm) quoted (lookup2 dflt tbl) hdrs :: ls)
+        else some (.basic skip (if ctor = 1 then [] else realm) quoted (lookup2 dflt tbl) (req.values authorizationLit) :: ls)
       | .key ctor skip lookups scheme eh cont data dflt tbl =>
         match keyCfgOf ctor lookups scheme eh cont with
         | none => none
@@ -626,7 +646,7 @@ def encExts : List Ext → Option (List String)
 /-- `ctor`: 0 = `…WithConfig(config)`, 1 = the convenience constructor `BasicAuth(fn)` / `KeyAuth(fn)`
     (all other fields at their defaults), 2 / 3 = the same two with a nil validator (the constructor panics).
 
-    basic: `0 ctor skip realm quoted nhdr hdr* dflt ntbl (u p outcome)*`
+    basic: `0 ctor skip realm quoted method nhdr (name value)* dflt ntbl (u p outcome)*`  (the whole request head)
            →  `ran status www ncalls (u p)* wwwValue`
     key:   `1 ctor skip lookups scheme eh cont nsrc (npairs (name value)*)* dflt ntbl (key outcome)*`
            →  `ran status ehClass ncalls key*`;  `panic` / `config-panic` otherwise
@@ -638,11 +658,11 @@ def encExts : List Ext → Option (List String)
 def runLine (line : String) : String :=
   match parseLine pOp line with
   | none => "bad-op"
-  | some (.basic ctor skip realm quoted hdrs dflt tbl) =>
+  | some (.basic ctor skip realm quoted req dflt tbl) =>
     if ctor ≥ 2 then "config-panic"
     else
       let realm := if ctor = 1 then [] else realm
-      match basicAuthMW skip (lookup2 dflt tbl) b64decode hdrs with
+      match basicAuthReq skip (lookup2 dflt tbl) b64decode req with
       | none => "panic"
       | some o => render [encBObs o, encStr (if o.www then wwwValue realm quoted else [])]
   | some (.key ctor skip lookups scheme eh cont data dflt tbl) =>
